@@ -23,6 +23,7 @@ type HarnessOpts struct {
 	ChanCap   int // if > 0, cap for every make(chan, n) (the code never reads the capacity)
 	MapOrder  int // 0 insertion order, 1 insertion+reverse, 2 all permutations up to 3 entries
 	PoolAny   bool
+	ExprTable bool // expr.Parse answers from the harness table (C15)
 	Tier      int
 }
 
@@ -163,7 +164,7 @@ func loadEngine(repo string, ov map[string][]byte) (*Engine, error) {
 	}
 	e.baseGlobals = map[*ssa.Global]int32{}
 	e.setupIntrinsics()
-	for real, model := range map[string]string{"sort.Slice": "vmSortSlice"} {
+	for real, model := range map[string]string{"sort.Slice": "vmSortSlice", logPath + "/expr.Parse": "vmExprParse"} {
 		if f := e.logPkg.Func(model); f != nil {
 			e.redirects[real] = f
 		}
